@@ -252,6 +252,10 @@ def post_from_pair(ctx, call):
     args = [a for a in call.args[1:] if S._is_tensor(a)]
     if len(args) != 2 or not all(R.finite(a.array) for a in args):
         return
+    if args[0].shape[-1] < 3:
+        # on the projective line a pair of distinct hyperplanes (points) is a regular quadric: the clause "reported degenerate" is about lines / planes
+        ctx.skip("is_degenerate", "projective line: a point pair is a regular quadric")
+        return
     # judged for hyperplanes given with moderate coordinates (the constructor normalises the matrix itself)
     if any(float(np.abs(a.array).max()) > 1e3 or float(np.abs(a.array).max()) < 1e-3 for a in args):
         ctx.skip("is_degenerate", "constructor arguments of extreme scale")
@@ -371,6 +375,16 @@ def g_plane_pairs(ctx, rng, i):
                 break
         else:
             return
+    if i % 4 == 1:
+        # the projective line: a quadric of P^1 built from two of its hyperplanes (points) splits into that pair as well
+        e1, f1 = gen.nonzero_vec(rng, 2, 5), gen.nonzero_vec(rng, 2, 5)
+        if X.rank([X.vec(e1), X.vec(f1)]) == 2:
+            try:
+                c1 = g.Quadric.from_planes(g.Plane(e1), g.Plane(f1)).components
+            except Exception:
+                c1 = None  # judged by the monitor on components
+            if c1 is not None:
+                _pair_check(ctx, c1, e1, f1, [e1, f1])
     q = g.Quadric.from_planes(g.Plane(ev), g.Plane(fv))
     q.is_degenerate
     try:
